@@ -2,6 +2,9 @@ package restarteng
 
 import (
 	"fmt"
+	"github.com/ryogrid/SamehadaDB/lib/storage/access"
+	"github.com/ryogrid/SamehadaDB/lib/storage/tuple"
+	"github.com/ryogrid/SamehadaDB/lib/types"
 	"strings"
 	"time"
 
@@ -25,6 +28,11 @@ type AbortCase struct {
 	// and before every check, so that with a small pool the pages the victim (and its rollback) changed are evicted and
 	// read back in between
 	Pad int `json:"pad,omitempty"`
+	// Tight > 0: an extra table whose first heap page is filled so that exactly Tight-1 bytes stay free; the victim then
+	// first shortens the row stored last on that page and inserts TightIns small rows (which take the freed bytes and new
+	// slot entries) before its own statements: rolling all that back needs every byte of the page again
+	Tight    int `json:"tight,omitempty"`
+	TightIns int `json:"tight_ins,omitempty"`
 }
 
 type AbortStats struct {
@@ -98,6 +106,53 @@ func runAbort(c *AbortCase, st *AbortStats) *vf.Failure {
 		}
 		m.Apply(s, dbh.EvalMode{})
 	}
+	var tightStmts []dbh.Stmt
+	if c.Tight > 0 {
+		td := &dbh.TableDef{Name: "tight", Cols: []dbh.Col{{Name: "id", T: "i", Idx: dbh.IdxNone}, {Name: "s", T: "s", Idx: dbh.IdxNone}}}
+		if err := db.CreateTable(td); err != nil {
+			return vf.Failf("create-error", "%v", err)
+		}
+		m.Create(td)
+		defs = append(defs, td)
+		tm := db.Cat().GetTableByName("tight")
+		free := func() int { // bytes left on the first heap page: free space pointer - header - slot array
+			pg := access.CastPageAsTablePage(db.BPM().FetchPage(tm.Table().GetFirstPageID()))
+			n := int(pg.GetFreeSpacePointer()) - 24 - 8*int(pg.GetTupleCount())
+			db.BPM().UnpinPage(pg.GetPageID(), false)
+			return n
+		}
+		size := func(l int) int {
+			return int(tuple.NewTupleFromSchema([]types.Value{types.NewInteger(1), types.NewVarchar(strings.Repeat("t", l))}, tm.Schema()).Size())
+		}
+		ins := func(id int32, l int) *vf.Failure {
+			st := &dbh.Stmt{Kind: "insert", Table: "tight", Cols: []string{"id", "s"}, Rows: []dbh.Row{{dbh.IntV(id), dbh.StrV(strings.Repeat("t", l))}}}
+			if _, err := db.Auto(st); err != nil {
+				return vf.Failf("setup-error", "tight rows: %v", err)
+			}
+			m.Apply(st, dbh.EvalMode{})
+			return nil
+		}
+		id := int32(0)
+		for free() > 700 {
+			if f := ins(id, 300); f != nil {
+				return f
+			}
+			id++
+		}
+		l := free() - 8 - (c.Tight - 1) - size(0)
+		if l > 250 {
+			if f := ins(id, l); f != nil {
+				return f
+			}
+			if free() == c.Tight-1 {
+				st.Classes["page-filled-to-the-byte"] = true
+				tightStmts = append(tightStmts, dbh.Stmt{Kind: "update", Table: "tight", Set: []dbh.SetItem{{Col: "s", V: dbh.StrV(strings.Repeat("u", l-200))}}, Where: dbh.Or(dbh.Leaf("id", "=", dbh.IntV(id)), dbh.Leaf("id", "=", dbh.IntV(7777777)))})
+				for i := 0; i < c.TightIns; i++ {
+					tightStmts = append(tightStmts, dbh.Stmt{Kind: "insert", Table: "tight", Cols: []string{"id", "s"}, Rows: []dbh.Row{{dbh.IntV(int32(5000 + i)), dbh.StrV("tiny")}}})
+				}
+			}
+		}
+	}
 	if f := Battery(db, m, defs, "before the victim transaction", false); f != nil {
 		f.Class = "pre-" + f.Class
 		return f
@@ -115,8 +170,9 @@ func runAbort(c *AbortCase, st *AbortStats) *vf.Failure {
 	t := db.Begin()
 	work := m.Clone()
 	touched := map[string]int{}
-	for i := range c.Victim {
-		s := &c.Victim[i]
+	victim := append(append([]dbh.Stmt{}, tightStmts...), c.Victim...)
+	for i := range victim {
+		s := &victim[i]
 		if ambiguous(s, work) {
 			continue
 		}
@@ -274,5 +330,9 @@ func GenAbort(t *rapid.T, o GenOpts) *AbortCase {
 	frames := 3*nIdx + 8*nBtree + 12 + rapid.SampledFrom([]int{0, 6, 40}).Draw(t, "spare")
 	c.KB = frames * 4
 	c.Pad = rapid.SampledFrom([]int{0, 0, 60, 120}).Draw(t, "pad")
+	if rapid.IntRange(0, 5).Draw(t, "tight") == 0 {
+		c.Tight = 1 + rapid.SampledFrom([]int{0, 4, 12, 30, 60}).Draw(t, "tightfree")
+		c.TightIns = rapid.IntRange(0, 6).Draw(t, "tightins")
+	}
 	return c
 }
